@@ -31,7 +31,10 @@ Alphabet == <<
   [type |-> 32808, vlen |-> 4,  var |-> "ord"],      \* 13 FINGERPRINT, wrong CRC
   [type |-> 32808, vlen |-> 8,  var |-> "ord"],      \* 14 FINGERPRINT, wrong length
   [type |-> 32808, vlen |-> 2,  var |-> "ord"],      \* 15 FINGERPRINT, too short
-  [type |-> 36,    vlen |-> 4,  var |-> "ord"]       \* 16 PRIORITY
+  [type |-> 36,    vlen |-> 4,  var |-> "ord"],      \* 16 PRIORITY
+  [type |-> 32802, vlen |-> 8,  var |-> "fplike"],   \* 17 SOFTWARE whose value reads like a FINGERPRINT attribute
+  [type |-> 65280, vlen |-> 24, var |-> "milike"],   \* 18 unknown attribute whose value reads like a MESSAGE-INTEGRITY attribute
+  [type |-> 6,     vlen |-> 12, var |-> "hdrlike"]   \* 19 USERNAME whose value reads like attribute headers (type 0x0008 len 0 ...)
 >>
 
 \* header variants: top two bits, cookie, class, method, declared length relative to the real body length
@@ -64,7 +67,11 @@ HdrBytes(hh) ==
   W16(f) \o <<0, 0>> \o (IF hh.cookie THEN MagicCookie ELSE <<33, 18, 164, 67>>) \o Tid
 
 AttrBytes(a, pre, k) ==
-  LET val == IF a.var = "fpok" THEN W32(X2(Crc32(SetLen(pre, Len(pre) + 8 - 20)), FpXor)) ELSE Pattern(a.vlen, k)
+  LET val == IF a.var = "fpok" THEN W32(X2(Crc32(SetLen(pre, Len(pre) + 8 - 20)), FpXor))
+             ELSE IF a.var = "fplike" THEN <<128, 40, 0, 4>> \o Pattern(4, k)
+             ELSE IF a.var = "milike" THEN <<0, 8, 0, 20>> \o Pattern(20, k)
+             ELSE IF a.var = "hdrlike" THEN <<0, 8, 0, 0, 0, 28, 0, 0, 128, 40, 0, 0>>
+             ELSE Pattern(a.vlen, k)
   IN W16(a.type) \o W16(a.vlen) \o val \o Zeros(Pad4(a.vlen) - a.vlen)
 
 RECURSIVE Build(_, _, _)
